@@ -16,6 +16,7 @@
   object embedded in a tree that is not a silent, non-atomic built-in, or a reference by name
   to a built-in other than EOI; the front end builds neither.
 -/
+import PestModel.Props.Tables
 import PestModel.Lemmas.GenEq
 
 namespace Pest
